@@ -1,6 +1,7 @@
 """C03 - tree iterators and tear (DESIGN 4 C03).
+I3 reference step tables for every traversal and the tear effects (props/C03_steps.py, SHAPE on generic neighbourhoods),
 I1 four-way agreement (avl/rbt x left/right mirror) of every iterator family by canonical-IR isomorphism,
-I2 iteration-protocol macros pair the documented head and step functions, T1 tear contract (SHAPE, see props/shape rules)."""
+I2 iteration-protocol macros pair the documented head and step functions."""
 import re, os
 import irx, llir, sib, dwarf
 
@@ -35,13 +36,12 @@ def consts_for(mask):
 
 def run(ctx):
     rep = ctx.rep
-    rep.explanation = ('every iterator exists in four copies (AVL / red-black, forward / mirrored); each copy is brought to a canonical, '
+    rep.explanation = ('I3: entry segment and loops of each traversal interpreted on every generic neighbourhood of the current node and compared with the reference step tables; I1: every iterator exists in four copies (AVL / red-black, forward / mirrored); each copy is brought to a canonical, '
                        'name-free IR form with struct fields labelled by role from the debug info (L, R, P) and the tag mask abstracted; '
                        'the forward copy must equal the mirrored copy under L<->R and the AVL copy must equal the red-black copy; the '
                        'iteration macros are checked for the documented (start, step) pairs')
-    rep.trusted += ['lib/sib.py canonical form']
-    rep.assumptions += ['agreement between the four copies is decided, not the correctness of the shared traversal algorithm: a change applied '
-                        'identically to all four copies is invisible to rule I1']
+    rep.trusted += ['lib/sib.py canonical form', 'lib/tree.py, lib/symx.py', 'textbook argument that the reference step tables enumerate the documented orders']
+    rep.assumptions += ['rule I3 decides every step of every traversal on generic neighbourhoods; that the steps compose to the documented sequence is the textbook argument']
     canon = {}
     for tree, mask in TREES:
         try:
@@ -69,6 +69,7 @@ def run(ctx):
         fn = m.functions.get(name)
         if fn is not None and not fn.error:
             canon[(tree, 'tear', 0)] = (fn, sib.canon(fn, roles, consts=consts_for(mask), callee_map=cm))
+    passed = steps(ctx)
     # pairwise obligations: forward vs mirrored within a tree; avl vs rbt for each copy
     def cmp(a, b, why):
         if a not in canon or b not in canon:
@@ -80,6 +81,8 @@ def run(ctx):
         if kind == 'equal':
             rep.ok('I1', sym, 'canonical forms identical under %s (%d instructions)' % (why, len(ca.lines)), loc=fa.loc(fa.entry.instrs[0]),
                    sample={'pair': [fa.name, fb.name], 'symmetry': why, 'instructions': len(ca.lines)})
+        elif fa.name in passed and fb.name in passed:
+            rep.ok('I1', sym, 'the copies are written differently (%s) but each equals the reference step tables (rule I3)' % kind, loc=fa.loc(fa.entry.instrs[0]))
         elif kind == 'point':
             d = '; '.join('#%d: %s  |  %s' % x for x in info)
             rep.bad('I1', sym, 'the two copies perform different operations at the same place under %s: %s' % (why, d), loc=fa.loc(fa.entry.instrs[0]),
@@ -93,6 +96,7 @@ def run(ctx):
         cmp(('avl', fam[0], 1), ('rbt', fam[0], 1), 'avl<->rbt')
     cmp(('avl', 'tear', 0), ('rbt', 'tear', 0), 'avl<->rbt')
     macros(ctx)
+    rep.floor('I3', 22)
     rep.floor('I1', 21)
     rep.floor('I2', 28)
     # positive control: mirroring must matter (forward vs forward-with-swap differ)
@@ -106,6 +110,34 @@ def run(ctx):
             rep.ok('FIXTURE', 'sib-mirror', 'a function is not its own mirror image: the symmetry is not vacuous')
         else:
             rep.unk('FIXTURE', 'sib-mirror', 'positive control failed')
+
+
+def steps(ctx):
+    """I3: every traversal against the reference step tables (props/C03_steps.py)"""
+    from props import C03_steps
+    from symx import Unsupported
+    rep = ctx.rep
+    passed = set()
+    for tree_, mask in (('avl', 3), ('rbt', 1)):
+        m = ctx.module(tree_)
+        lookup = lambda n, m=m: m.functions.get(n)
+        todo = []
+        for fam in FAMILIES:
+            todo.append((fam[0], fam[0], 'l'))
+            todo.append((fam[1], fam[0], 'r'))
+        todo.append(('tear', 'tear', 'l'))
+        for suffix, fam, a in todo:
+            name = 'a_%s_%s' % (tree_, suffix)
+            fn = m.functions.get(name)
+            if fn is None or fn.error:
+                rep.unk('I3', name, 'anchor vanished')
+                continue
+            try:
+                if C03_steps.check_function(rep, fn, lookup, mask, fam, a, name):
+                    passed.add(name)
+            except Unsupported as e:
+                rep.unk('I3', name, 'outside the domain: %s' % e, loc=fn.loc(fn.entry.term))
+    return passed
 
 
 PROTO = {  # macro suffix -> (start, step); start None = (root)->node
